@@ -62,6 +62,7 @@ class Destinations(object):
         # another thread during the hand-over is not lost. Not used once
         # destinations have been added.
         self._buffering_lock = RLock()
+        self._handing_over = False
 
     def addGlobalFields(self, **fields):
         """
@@ -150,9 +151,13 @@ class Destinations(object):
         """
         if not self._any_added:
             with self._buffering_lock:
-                if not self._any_added:
+                if not self._any_added and not self._handing_over:
                     # These are first set of messages added, so we need to
-                    # clear BufferingDestination:
+                    # clear BufferingDestination. (_handing_over: a
+                    # destination that adds another one while the buffer is
+                    # re-delivered to it gets here again, in the same
+                    # thread; the buffer is already gone then.)
+                    self._handing_over = True
                     buffered_messages = self._destinations[0].messages
                     self._destinations = list(destinations)
                     # Re-deliver buffered messages:
